@@ -17,6 +17,7 @@ ENVVARS = ('MIDO_BACKEND', 'MIDO_DEFAULT_INPUT', 'MIDO_DEFAULT_OUTPUT',
 RECORDER_SRC = '''
 CALLS = []
 EXC = [AttributeError]
+DEVICES = [None]
 '''
 
 MODULE_SRC = '''
@@ -55,6 +56,8 @@ class IOPort(_Port):
 DEVICES_SRC = '''
 def get_devices(**kwargs):
     _r.CALLS.append(('get_devices', None, dict(kwargs)))
+    if _r.DEVICES[0] is not None:
+        return [dict(d) for d in _r.DEVICES[0]]
     return [
         {'name': 'X', 'is_input': True, 'is_output': False},
         {'name': 'Y', 'is_input': True, 'is_output': False},
@@ -358,6 +361,61 @@ def grid(spec_idx):
                'native': native, 'devices': devices, 'load': load, 'op': op}
 
 
+def device_lists(mido, acc):
+    """Name listing over enumerated device lists: every list of <= 4 entries
+    over 3 names x {in, out, both}, and long lists (9..40 devices) in several
+    orders.  Each name is at most once an input and at most once an output."""
+    import itertools
+    import mc_fake_recorder as rec
+    from mido.backends.backend import Backend
+    DIRS = {'in': (True, False), 'out': (False, True), 'both': (True, True)}
+
+    def lists():
+        syms = [(n, d) for n in 'ABC' for d in DIRS]
+        for k in range(5):
+            yield from itertools.product(syms, repeat=k)
+        for n in (5, 8, 9, 10, 17, 40):
+            names = [f'dev{i}' for i in range(n)]
+            ins = [(x, 'in') for x in names]
+            outs = [(x, 'out') for x in names]
+            yield ins + outs
+            yield outs + ins
+            yield ins + outs[::-1]
+            yield outs[::-1] + ins
+            yield [e for pair in zip(outs[::-1], ins) for e in pair]
+            yield [(x, 'both') for x in names[::-1]]
+            yield outs[n // 2:] + ins + outs[:n // 2]
+            yield ([(x, 'out') for x in names[::2]] + ins[::-1]
+                   + [(x, 'both') for x in ['extra1', 'extra2']])
+
+    be = Backend(modname(True, True), load=True)
+    try:
+        for lst in lists():
+            ins = [n for n, d in lst if DIRS[d][0]]
+            outs = [n for n, d in lst if DIRS[d][1]]
+            if len(set(ins)) != len(ins) or len(set(outs)) != len(outs):
+                continue
+            rec.DEVICES[0] = [{'name': n, 'is_input': DIRS[d][0],
+                               'is_output': DIRS[d][1]} for n, d in lst]
+            want = {'get_input_names': ins, 'get_output_names': outs,
+                    'get_ioport_names': [n for n in ins if n in set(outs)]}
+            acc.evals += 1
+            acc.nontrivial += 1
+            for op, exp in want.items():
+                try:
+                    got = getattr(be, op)()
+                except Exception as e:
+                    got = repr(e)
+                if got != exp:
+                    acc.violation(f'device-list/{op}',
+                                  f'{op}() with devices {lst if len(lst) < 12 else str(lst)[:300]} '
+                                  f'= {got!r:.300}, expected {exp!r:.300}',
+                                  {'kind': 'devices'})
+                    break
+    finally:
+        rec.DEVICES[0] = None
+
+
 def worker(shard):
     mido = common.import_mido()
     acc = Acc()
@@ -382,6 +440,7 @@ def worker(shard):
                         continue
                     run_case(mido, dict(cfg, via_set_backend=via), acc)
             raising_cases(mido, acc)
+            device_lists(mido, acc)
             acc.sample({'set_backend': ['object', 'name']}, cap=1)
     finally:
         mido.set_backend(original_backend)
@@ -431,9 +490,14 @@ def check_case(case):
     orig = mido.backend
     try:
         write_modules(d)
-        cfg = dict(case)
-        cfg['spec'] = tuple(cfg['spec'])
-        run_case(mido, cfg, acc)
+        if case.get('kind') == 'devices':
+            device_lists(mido, acc)
+        elif case.get('kind') == 'raising':
+            raising_cases(mido, acc)
+        else:
+            cfg = dict(case)
+            cfg['spec'] = tuple(cfg['spec'])
+            run_case(mido, cfg, acc)
     finally:
         mido.set_backend(orig)
         sys.path.remove(d)
